@@ -17,6 +17,8 @@ from .optmodels import LT, lie
 NAME = "groupsim"
 SIM_UNIT = "group operations"
 BUDGET = {"quick": {"runs": 1400, "wall": 70}, "thorough": {"runs": 12000, "wall": 2400}}
+ISOLATE = "chunk"       # every chunk of runs in a forked child of a pristine worker: what a run sees of the process is a
+                        # deterministic function of the runs before it in the same chunk (see runner.run_history_iso)
 SHRINK_LISTS = ("ops",)
 PROBES = {"C03": ["history>=1000", "history>=10000", "act4:w=0", "float32", "batched", "scale-steered",
                   "assoc", "act-compose", "identity", "inverse", "reinit-from-identity", "logscale>8", "identity_-through-view:[::2]", "identity_-through-view:[:, 0]", "operand:expanded", "operand:broadcast", "operand:non-contiguous", "operand:deepcopied", "translation-rebased", "operand:exact-half-turn", "act-operator-forms"]}
